@@ -27,7 +27,7 @@ Record eobs := {
 
 Definition eobs_of (c : vcase) : option eobs :=
   match c with
-  | EC type level hdr ce raw body _ rerr cerr max algs custom mw _ _ dect
+  | EC type level hdr ce raw body _ _ rerr cerr max algs custom mw _ _ dect
        o_client o_wce o_wbody o_wcl _ o_kind o_status o_hce o_cl o_data o_err o_views =>
       Some {| x_type := type; x_level := level; x_hdr := hdr; x_ce := ce; x_raw := raw; x_body := body;
               x_rerr := rerr; x_cerr := cerr; x_max := max; x_algs := algs; x_custom := custom; x_mw := mw; x_dect := dect;
